@@ -29,14 +29,14 @@ func lineEq(exp, got string) bool {
 
 type mismatch struct {
 	Effect    string   `json:"effect"`
-	LineIndex int      `json:"line_index"`          // index of the first expected line that is not delivered as one message
-	Expected  string   `json:"expected,omitempty"`  // abbreviated
-	ExpLen    int      `json:"expected_len"`        // its length
-	Got       []string `json:"got,omitempty"`       // the messages received at that position (abbreviated)
-	GotLens   []int    `json:"got_lens,omitempty"`  // their lengths
-	NExpected int      `json:"n_expected"`          // number of expected lines
-	NGot      int      `json:"n_got"`               // number of messages received
-	Pieces    int      `json:"pieces,omitempty"`    // split: number of messages the line arrived in
+	LineIndex int      `json:"line_index"`            // index of the first expected line that is not delivered as one message
+	Expected  string   `json:"expected,omitempty"`    // abbreviated
+	ExpLen    int      `json:"expected_len"`          // its length
+	Got       []string `json:"got,omitempty"`         // the messages received at that position (abbreviated)
+	GotLens   []int    `json:"got_lens,omitempty"`    // their lengths
+	NExpected int      `json:"n_expected"`            // number of expected lines
+	NGot      int      `json:"n_got"`                 // number of messages received
+	Pieces    int      `json:"pieces,omitempty"`      // split: number of messages the line arrived in
 	SplitAll  int      `json:"split_lines,omitempty"` // split: number of lines of the stream that arrived in pieces
 }
 
